@@ -23,6 +23,8 @@ pub enum QOp {
     Emit(u16),
     Clone(u16),
     Drop(u16),
+    /// drop the handle while its thread is unwinding from a panic (caught by the caller)
+    DropUnwinding(u16),
     /// let the wrapped sink finish the metric it holds, with this outcome
     Step(StepOut),
     /// flush() on a live handle; the outcome is what the wrapped sink would answer
@@ -100,6 +102,7 @@ enum Cmd {
     Emit(usize, String),
     Clone(usize),
     Drop(usize),
+    DropUnwinding(usize),
     Stats(usize),
     Flush(usize),
     Quit,
@@ -219,6 +222,19 @@ impl Actor {
                                 Err(p) => Reply::Panicked(p),
                             }
                         }
+                        Cmd::DropUnwinding(h) => {
+                            let q = handles[h].take();
+                            // the handle is dropped by the unwinding of this (harness) panic
+                            let r = util::catch(move || {
+                                let _held = q;
+                                panic!("{} (dropping a handle while unwinding)", util::HARNESS_PANIC);
+                            });
+                            match r {
+                                Err(p) if p.contains(util::HARNESS_PANIC) => Reply::Done,
+                                Err(p) => Reply::Panicked(p),
+                                Ok(()) => Reply::Done,
+                            }
+                        }
                         Cmd::Stats(h) => match util::catch(|| {
                             let q = handles[h].as_ref().unwrap();
                             // queued first, then the monotone counters
@@ -275,7 +291,11 @@ pub struct Run {
 }
 
 fn metric_name(i: usize) -> String {
-    // lengths vary so that Ok(len) is checked meaningfully
+    // lengths vary so that Ok(len) is checked meaningfully; now and then the empty
+    // string (a legal &str for MetricSink::emit)
+    if i % 11 == 5 {
+        return String::new();
+    }
     format!("m{}.{}:1|c", i, "x".repeat(i % 7))
 }
 
@@ -500,7 +520,7 @@ pub fn run_case_focus(case: &QueueCase, ctx: &Ctx, focus: Option<QRule>) -> Run 
         } else {
             break;
         };
-        match op {
+        match op.clone() {
             QOp::Emit(sel) => {
                 if !live.is_empty() {
                     let li = util::pick_idx(sel, live.len());
@@ -545,8 +565,13 @@ pub fn run_case_focus(case: &QueueCase, ctx: &Ctx, focus: Option<QRule>) -> Run 
                         Ok(Reply::Emit(Err(e))) => {
                             st.emits_refused += 1;
                             if room {
+                                let mut rules = vec![QRule::Isolation, QRule::Deliver];
+                                if any_panic {
+                                    // "... and the sink keeps accepting metrics" (C11)
+                                    rules.push(QRule::Panics);
+                                }
                                 find!(
-                                    [QRule::Isolation, QRule::Deliver],
+                                    rules,
                                     oi,
                                     "emit returned Err({}) although the queue (capacity {:?}) holds only {} metrics",
                                     e,
@@ -596,7 +621,8 @@ pub fn run_case_focus(case: &QueueCase, ctx: &Ctx, focus: Option<QRule>) -> Run 
                     check_counters!(oi);
                 }
             }
-            QOp::Drop(sel) => {
+            QOp::Drop(sel) | QOp::DropUnwinding(sel) => {
+                let unwinding = matches!(op, QOp::DropUnwinding(_));
                 if !live.is_empty() {
                     let li = util::pick_idx(sel, live.len());
                     let h = live.remove(li);
@@ -606,7 +632,7 @@ pub fn run_case_focus(case: &QueueCase, ctx: &Ctx, focus: Option<QRule>) -> Run 
                         st.final_drop_inhand = inhand.is_some();
                         st.final_drop_full = case.cap.map_or(false, |c| queue.len() >= c);
                     }
-                    match actor.call(Cmd::Drop(h), w) {
+                    match actor.call(if unwinding { Cmd::DropUnwinding(h) } else { Cmd::Drop(h) }, w) {
                         Ok(Reply::Done) => {}
                         Ok(Reply::Panicked(p)) => {
                             find!([QRule::Shutdown, QRule::Panic], oi, "dropping a handle panicked: {}", p);
@@ -685,6 +711,19 @@ pub fn run_case_focus(case: &QueueCase, ctx: &Ctx, focus: Option<QRule>) -> Run 
                                 "flush() ran the wrapped sink's emit for queued metric '{}' on the caller's thread (while the worker holds another metric: hand-over is neither one at a time nor on the background thread)",
                                 metric
                             );
+                            // whatever was handed to the wrapped sink must be counted as drained
+                            if let Ok(Reply::Stats { drained, .. }) = actor.call(Cmd::Stats(h), w) {
+                                let handed = gate.lock().entered as u64;
+                                if drained != handed {
+                                    find!(
+                                        [QRule::Counters],
+                                        oi,
+                                        "drained() = {} but {} metrics were handed to the wrapped sink (some of them inside flush())",
+                                        drained,
+                                        handed
+                                    );
+                                }
+                            }
                             if let (StepOut::Err(_), true) = (caller_out, case.handler) {
                                 if !handler_tokens.contains(&Some(seq as u64)) {
                                     find!(
@@ -916,7 +955,7 @@ pub fn queue_case(g: QGen) -> BoxedStrategy<QueueCase> {
     let op = prop_oneof![
         g.emit_w => any::<u16>().prop_map(QOp::Emit),
         g.clone_w => any::<u16>().prop_map(QOp::Clone),
-        g.drop_w => any::<u16>().prop_map(QOp::Drop),
+        g.drop_w => prop_oneof![4 => any::<u16>().prop_map(QOp::Drop), 1 => any::<u16>().prop_map(QOp::DropUnwinding)],
         g.step_w => step_out(g.err_w, g.panic_w).prop_map(QOp::Step),
         g.flush_w => (any::<u16>(), prop_oneof![Just(StepOut::Ok), (0u8..13).prop_map(StepOut::Err)]).prop_map(|(h, o)| QOp::Flush(h, o)),
     ];
@@ -956,7 +995,7 @@ pub fn ending_case() -> BoxedStrategy<QueueCase> {
             if clone_first {
                 ops.push(QOp::Drop(0));
             }
-            ops.push(QOp::Drop(0));
+            ops.push(if under == 2 && pre_steps == 1 { QOp::DropUnwinding(0) } else { QOp::Drop(0) });
             for o in outs {
                 ops.push(QOp::Step(o));
             }
